@@ -302,7 +302,8 @@ def main():
 
     chk = None
     if tier == "thorough" and props_vo_ok and not os.environ.get("VERIF_NO_COQCHK"):
-        chk = vlib.coqchk(pid)
+        chk = vlib.coqchk(pid, extra=[f"Memchr.Gen.Tie{g}" for g in tie_info.get("tie_groups_translated", [])
+                                      if vo_fresh(f"Gen/Tie{g}.v")])
         log(f"coqchk: ok={chk['ok']} axioms={chk['axioms']} wall={chk['wall']:.0f}s")
         if not chk["ok"] or chk["axioms"] or chk["type_in_type"] or chk["unsafe"]:
             broken.append(("proof", "coqchk (independent checker)", f"ok={chk['ok']} axioms={chk['axioms']} {chk['tail'][-300:]}"))
